@@ -44,6 +44,19 @@
 //!                `format_with_source` (what the router calls on every parse error) must not panic.
 //!   exec.*       ORACLE ONLY: statement text through `QueryRouter::execute` / `execute_parsed` vs the
 //!                direct engine calls on a twin database.
+//!   xsel.*       the clauses the router evaluates ITSELF on the engine's answer (Parse/Exec.lean, ops `xsel` `xlist`
+//!                `xtake`): SELECT [columns] FROM t [JOIN u …] [WHERE …] [ORDER BY items] [LIMIT k] [OFFSET o] on small
+//!                tables with ties and NULLs, k and o at the boundaries 0, 1, m-1, m, m+1 of the result size m.
+//!                Executed clause by clause, every step judged on the real outputs against the step before it
+//!                (rows = direct engine call; ORDER BY = sorted permutation; OFFSET o = minus the first o rows;
+//!                LIMIT k = first k rows), the statement's answer compared with the model run on the direct call's
+//!                rows (xsel.model; `outside` where the comparator of sort_rows is not an order).  xsel.directed runs
+//!                FIRST (every shape × every boundary pair on 0..5 rows; one row + LIMIT 0 is the first table), then
+//!                aggregates / GROUP BY / HAVING vs the engine's aggregate calls, INSERT / UPDATE / DELETE results and
+//!                table states on twins, NODE LIST / EDGE LIST / FIND / SHOW EMBEDDINGS / SIMILAR windows, NEIGHBORS,
+//!                PATH (xsel.family.*); xsel.random after exec.  Failing statements are shrunk (rows, clauses, numbers).
+//!                xsel.candidate.*: clauses that are parsed and not (or not as written) applied on the unchanged tree —
+//!                observations, re-established at every run.
 use nverif::*;
 use serde_json::json;
 use std::io::{BufRead, BufReader, Write};
@@ -5408,6 +5421,1403 @@ fn stream_comments(m: &mut Model, rep: &mut Report, rng: &Rng, thorough: bool) {
     }
 }
 
+// ------------------------------------------------------------------ clauses the router evaluates itself (Exec.lean)
+//
+// Third clause of the property ("executing a statement given as text has the same effect and result as the
+// equivalent direct engine call") for everything the router computes ITSELF on the engine's answer:
+//   SELECT [proj] FROM t [JOIN u ON …] [WHERE …] [ORDER BY item, …] [LIMIT k] [OFFSET o]   (exec_select,
+//   exec_select_with_joins), aggregates / GROUP BY / HAVING, INSERT / UPDATE / DELETE row counts, NODE LIST /
+//   EDGE LIST / FIND … WHERE / SHOW EMBEDDINGS / SIMILAR with LIMIT [OFFSET], NEIGHBORS, PATH.
+//
+// One statement is executed clause by clause (R0 = without ORDER BY / OFFSET / LIMIT, R1 = + ORDER BY, R2 = + OFFSET,
+// R3 = the statement) and every step is judged on the REAL outputs against the step before it:
+//   R0 = the direct engine call's rows, in its order              …/rows_differ_from_direct_engine_call
+//   R1 = a permutation of R0, sorted the way the items say        …/order_by_result_is_not_a_sorted_permutation_of_the_unordered_result
+//   R2 = R1 without its first o rows                              …/offset_result_is_not_the_result_without_offset_minus_its_first_rows
+//   R3 = the first k rows of R2                                   …/limit_result_is_not_the_prefix_of_the_unlimited_result
+// (site = query_router::QueryRouter::exec_select | exec_select_with_joins), and R3 is compared with the Lean model
+// `xsel` run on the direct call's rows (stream xsel.model: exact positions, ties and NULL placement included).
+// k and o are drawn from the boundaries of the result size m: 0, 1, m-1, m, m+1 (and absent / not a literal).
+// xsel.directed runs first: every shape × every boundary pair on tables of 0..4 rows.  A failing case is shrunk
+// (rows of both tables, then clauses, then the numbers).
+
+#[derive(Clone, Debug, PartialEq)]
+struct XRow {
+    a: Option<i64>,
+    b: Option<i64>,
+    name: Option<&'static str>,
+}
+
+#[derive(Clone, Debug, PartialEq)]
+struct URow {
+    a: Option<i64>,
+    w: i64,
+}
+
+struct XDb {
+    q: query_router::QueryRouter,
+}
+
+fn xdb(t: &[XRow], u: &[URow]) -> XDb {
+    let q = query_router::QueryRouter::new();
+    let st = Schema::new(vec![
+        Column::new("a", ColumnType::Int).nullable(),
+        Column::new("b", ColumnType::Int).nullable(),
+        Column::new("name", ColumnType::String).nullable(),
+    ]);
+    q.relational().create_table("t", st).expect("create t");
+    let su = Schema::new(vec![Column::new("a", ColumnType::Int).nullable(), Column::new("w", ColumnType::Int)]);
+    q.relational().create_table("u", su).expect("create u");
+    for r in t {
+        q.relational().insert("t", x_row_map(r)).expect("insert t");
+    }
+    for r in u {
+        let mut m = std::collections::HashMap::new();
+        m.insert("a".to_string(), r.a.map_or(RV::Null, RV::Int));
+        m.insert("w".to_string(), RV::Int(r.w));
+        q.relational().insert("u", m).expect("insert u");
+    }
+    XDb { q }
+}
+
+fn x_row_map(r: &XRow) -> std::collections::HashMap<String, RV> {
+    let mut m = std::collections::HashMap::new();
+    m.insert("a".to_string(), r.a.map_or(RV::Null, RV::Int));
+    m.insert("b".to_string(), r.b.map_or(RV::Null, RV::Int));
+    m.insert("name".to_string(), r.name.map_or(RV::Null, |s| RV::String(s.to_string())));
+    m
+}
+
+#[derive(Clone, Debug, PartialEq)]
+enum XC {
+    Absent,
+    Lit(u64),
+    /// an expression that is not an integer literal
+    Other(&'static str),
+}
+
+impl XC {
+    fn text(&self, kw: &str) -> String {
+        match self {
+            XC::Absent => String::new(),
+            XC::Lit(n) => format!(" {kw} {n}"),
+            XC::Other(e) => format!(" {kw} {e}"),
+        }
+    }
+    fn model(&self) -> String {
+        match self {
+            XC::Absent => "-".into(),
+            XC::Lit(n) => n.to_string(),
+            XC::Other(_) => "x".into(),
+        }
+    }
+}
+
+/// column index of the model: t.a 0, t.b 1, t.name 2, u.a 3, u.w 4
+fn x_col_index(name: &str) -> Option<usize> {
+    match name {
+        "a" | "t.a" => Some(0),
+        "b" | "t.b" => Some(1),
+        "name" | "t.name" => Some(2),
+        "u.a" => Some(3),
+        "w" | "u.w" => Some(4),
+        _ => None,
+    }
+}
+
+#[derive(Clone, Debug, PartialEq)]
+struct XOrd {
+    col: &'static str,
+    desc: bool,
+    /// `ASC` written out (no meaning; spelling only)
+    asc_written: bool,
+    nulls: Option<bool>,
+}
+
+#[derive(Clone, Debug)]
+struct XStmt {
+    /// None = `*`
+    proj: Option<Vec<&'static str>>,
+    /// join spelling, e.g. "JOIN u ON t.a = u.a", "CROSS JOIN u"
+    join: Option<&'static str>,
+    cond: Option<Cond>,
+    order: Vec<XOrd>,
+    limit: XC,
+    offset: XC,
+}
+
+impl XStmt {
+    fn site(&self) -> &'static str {
+        if self.join.is_some() {
+            "query_router::QueryRouter::exec_select_with_joins"
+        } else {
+            "query_router::QueryRouter::exec_select"
+        }
+    }
+    fn text(&self, order: bool, offset: bool, limit: bool) -> String {
+        let mut s = String::from("SELECT ");
+        match &self.proj {
+            None => s.push('*'),
+            Some(cols) => s.push_str(&cols.join(", ")),
+        }
+        s.push_str(" FROM t");
+        if let Some(j) = self.join {
+            s.push(' ');
+            s.push_str(j);
+        }
+        if let Some(c) = &self.cond {
+            s.push_str(" WHERE ");
+            c.print(false, &mut s);
+        }
+        if order && !self.order.is_empty() {
+            let items: Vec<String> = self
+                .order
+                .iter()
+                .map(|o| {
+                    format!(
+                        "{}{}{}",
+                        o.col,
+                        if o.desc { " DESC" } else if o.asc_written { " ASC" } else { "" },
+                        match o.nulls {
+                            None => "",
+                            Some(true) => " NULLS FIRST",
+                            Some(false) => " NULLS LAST",
+                        }
+                    )
+                })
+                .collect();
+            s.push_str(" ORDER BY ");
+            s.push_str(&items.join(", "));
+        }
+        // the grammar has LIMIT before OFFSET
+        if limit {
+            s.push_str(&self.limit.text("LIMIT"));
+        }
+        if offset {
+            s.push_str(&self.offset.text("OFFSET"));
+        }
+        s
+    }
+    fn model_order(&self) -> String {
+        if self.order.is_empty() {
+            return "-".into();
+        }
+        self.order
+            .iter()
+            .map(|o| {
+                format!(
+                    "{}.{}.{}",
+                    x_col_index(o.col).map_or("99".to_string(), |c| c.to_string()),
+                    if o.desc { "d" } else { "a" },
+                    match o.nulls {
+                        None => "-",
+                        Some(true) => "f",
+                        Some(false) => "l",
+                    }
+                )
+            })
+            .collect::<Vec<_>>()
+            .join(";")
+    }
+}
+
+/// one row as the oracles see it: identity (canonical text) + the sort keys of the cells it has
+#[derive(Clone, Debug, PartialEq)]
+struct XB {
+    canon: String,
+    keys: Vec<(usize, Option<i64>)>,
+}
+
+fn x_key(v: &RV) -> Option<Option<i64>> {
+    match v {
+        RV::Null => Some(None),
+        RV::Int(i) => Some(Some(*i)),
+        // order-isomorphic: the generated names are single letters
+        RV::String(s) => Some(Some(s.bytes().next().map_or(-1, |b| b as i64))),
+        _ => None,
+    }
+}
+
+fn x_of_row(r: &relational_engine::Row, join: bool) -> XB {
+    let mut keys = Vec::new();
+    let mut cells = Vec::new();
+    for (k, v) in &r.values {
+        if !join && k == "_id" {
+            continue;
+        }
+        cells.push(format!("{k}={v:?}"));
+        if let (Some(c), Some(key)) = (x_col_index(k), x_key(v)) {
+            // an unqualified name in a join row cannot occur (merge_rows qualifies every column)
+            keys.push((c, key));
+        }
+    }
+    if join {
+        // merged rows: the identity is the pair of row ids inside the cells; cell order is merge order
+        XB { canon: cells.join(","), keys }
+    } else {
+        XB { canon: format!("#{} {}", r.id, cells.join(",")), keys }
+    }
+}
+
+type XRows = std::result::Result<Vec<XB>, String>;
+
+fn x_run(q: &query_router::QueryRouter, text: &str, join: bool) -> XRows {
+    let t2 = text.to_string();
+    match guarded(std::panic::AssertUnwindSafe(|| q.execute_parsed(&t2))) {
+        Err(p) => Err(format!("panic {p}")),
+        Ok(Ok(query_router::QueryResult::Rows(rows))) => Ok(rows.iter().map(|r| x_of_row(r, join)).collect()),
+        Ok(other) => Err(canon_qr(&other)),
+    }
+}
+
+fn x_join_cond_holds(c: &Cond, b: &XB) -> bool {
+    // WHERE of a join statement is generated as one comparison on u.w (never NULL); a row without u.w (LEFT JOIN
+    // without partner) does not satisfy it
+    if let Cond::Leaf(col, op, v) = c {
+        let key = x_col_index(col).and_then(|ci| b.keys.iter().find(|(c2, _)| *c2 == ci).and_then(|(_, k)| *k));
+        match key {
+            None => false,
+            Some(x) => match *op {
+                "=" => x == *v,
+                "!=" => x != *v,
+                "<" => x < *v,
+                "<=" => x <= *v,
+                ">" => x > *v,
+                _ => x >= *v,
+            },
+        }
+    } else {
+        true
+    }
+}
+
+/// the equivalent direct engine call (and, for joins, the row merge and the filter the statement describes)
+fn x_direct(db: &XDb, st: &XStmt) -> XRows {
+    let rel = db.q.relational();
+    match st.join {
+        None => {
+            let cond = st.cond.as_ref().map_or(Condition::True, |c| c.direct());
+            let opts = relational_engine::ColumnarScanOptions {
+                projection: st.proj.as_ref().map(|p| p.iter().map(|c| c.to_string()).collect()),
+                prefer_columnar: true,
+            };
+            let rows = rel.select_columnar("t", cond.clone(), opts).map_err(|e| format!("error {e:?}"))?;
+            // cross-check with the row API: same rows (as a set of id + projected cells)
+            if let Ok(plain) = rel.select("t", cond) {
+                let want_ids: Vec<u64> = plain.iter().map(|r| r.id).collect();
+                let got_ids: Vec<u64> = rows.iter().map(|r| r.id).collect();
+                if want_ids != got_ids {
+                    return Err(format!("direct calls disagree: select {want_ids:?} select_columnar {got_ids:?}"));
+                }
+            }
+            Ok(rows.iter().map(|r| x_of_row(r, false)).collect())
+        }
+        Some(j) => {
+            type P = (Option<relational_engine::Row>, Option<relational_engine::Row>);
+            let e = |e: relational_engine::RelationalError| format!("error {e:?}");
+            let pairs: Vec<P> = if j.starts_with("CROSS") {
+                rel.cross_join("t", "u").map_err(e)?.into_iter().map(|(a, b)| (Some(a), Some(b))).collect()
+            } else if j.starts_with("NATURAL") {
+                rel.natural_join("t", "u").map_err(e)?.into_iter().map(|(a, b)| (Some(a), Some(b))).collect()
+            } else if j.starts_with("LEFT") {
+                rel.left_join("t", "u", "a", "a").map_err(e)?.into_iter().map(|(a, b)| (Some(a), b)).collect()
+            } else if j.starts_with("RIGHT") {
+                rel.right_join("t", "u", "a", "a").map_err(e)?.into_iter().map(|(a, b)| (a, Some(b))).collect()
+            } else if j.starts_with("FULL") {
+                rel.full_join("t", "u", "a", "a").map_err(e)?.into_iter().collect()
+            } else {
+                rel.join("t", "u", "a", "a").map_err(e)?.into_iter().map(|(a, b)| (Some(a), Some(b))).collect()
+            };
+            let mut out = Vec::new();
+            for (a, b) in pairs {
+                let mut values = Vec::new();
+                // what the statement describes: the two rows side by side, every column qualified by its table,
+                // each row's id as `<table>._id`
+                for (alias, row) in [("t", &a), ("u", &b)] {
+                    if let Some(row) = row {
+                        values.push((format!("{alias}._id"), RV::Int(row.id as i64)));
+                        for (k, v) in row.values.iter().filter(|(k, _)| k != "_id") {
+                            values.push((format!("{alias}.{k}"), v.clone()));
+                        }
+                    }
+                }
+                let merged = relational_engine::Row { id: 0, values };
+                let xb = x_of_row(&merged, true);
+                if st.cond.as_ref().map_or(true, |c| x_join_cond_holds(c, &xb)) {
+                    out.push(xb);
+                }
+            }
+            Ok(out)
+        }
+    }
+}
+
+/// the order the items ask for, where the clause's meaning is not in question: ASC / DESC order the values,
+/// NULLs go where the NULLS clause says; default NULLS LAST (ASC) / NULLS FIRST (DESC).  `None` = the statement has
+/// an item this oracle does not judge (explicit NULLS clause under DESC, sort column outside the select list: see
+/// the candidate-finding observations and ExecProps) — then only "permutation" is required here.
+fn x_doc_cmp(order: &[XOrd], a: &XB, b: &XB) -> Option<std::cmp::Ordering> {
+    use std::cmp::Ordering::*;
+    for it in order {
+        let ci = x_col_index(it.col)?;
+        let ka = a.keys.iter().find(|(c, _)| *c == ci).map(|(_, k)| *k);
+        let kb = b.keys.iter().find(|(c, _)| *c == ci).map(|(_, k)| *k);
+        let (ka, kb) = match (ka, kb) {
+            (Some(x), Some(y)) => (x, y),
+            _ => return None,
+        };
+        if it.desc && it.nulls.is_some() {
+            return None;
+        }
+        let nulls_first = it.nulls.unwrap_or(it.desc);
+        let c = match (ka, kb) {
+            (None, None) => Equal,
+            (None, Some(_)) => if nulls_first { Less } else { Greater },
+            (Some(_), None) => if nulls_first { Greater } else { Less },
+            (Some(x), Some(y)) => if it.desc { y.cmp(&x) } else { x.cmp(&y) },
+        };
+        if c != Equal {
+            return Some(c);
+        }
+    }
+    Some(Equal)
+}
+
+fn x_show(rows: &XRows) -> String {
+    match rows {
+        Ok(v) => {
+            let s = format!("{} rows [{}]", v.len(), v.iter().map(|b| b.canon.clone()).collect::<Vec<_>>().join(" | "));
+            s.chars().take(300).collect()
+        }
+        Err(e) => e.chars().take(200).collect(),
+    }
+}
+
+struct XEval {
+    /// (class, what)
+    viol: Vec<(String, String)>,
+    /// model line and the real statement's answer in the model's vocabulary (None: the direct call failed)
+    model: Option<(String, String)>,
+    base_len: usize,
+    final_len: usize,
+    /// some sort column is missing in one row of the engine's answer and NULL in another (outer join): the closure
+    /// of sort_rows is not an order on such rows (Exec.consistent = false), ORDER BY is not judged and the model
+    /// answers `outside`
+    inconsistent: bool,
+    order_panicked: bool,
+}
+
+fn xs_eval(db: &XDb, st: &XStmt) -> XEval {
+    let join = st.join.is_some();
+    let site = st.site();
+    let mut viol: Vec<(String, String)> = Vec::new();
+    let base = x_direct(db, st);
+    // R0
+    let t0 = st.text(false, false, false);
+    let r0 = x_run(&db.q, &t0, join);
+    let same = |a: &XRows, b: &XRows| match (a, b) {
+        (Ok(x), Ok(y)) => x.iter().map(|r| &r.canon).eq(y.iter().map(|r| &r.canon)),
+        (Err(_), Err(_)) => true,
+        _ => false,
+    };
+    if !same(&r0, &base) {
+        viol.push((
+            format!("{site}/rows_differ_from_direct_engine_call"),
+            format!("`{t0}` returned {} but the direct engine call returns {}", x_show(&r0), x_show(&base)),
+        ));
+    }
+    // R1
+    let has_order = !st.order.is_empty();
+    let inconsistent = match &base {
+        Ok(b) => st.order.iter().any(|it| match x_col_index(it.col) {
+            Some(ci) => {
+                let cell = |r: &XB| r.keys.iter().find(|(c, _)| *c == ci).map(|(_, k)| *k);
+                b.iter().any(|r| cell(r).is_none()) && b.iter().any(|r| cell(r) == Some(None))
+            }
+            None => false,
+        }),
+        Err(_) => false,
+    };
+    let t1 = st.text(true, false, false);
+    let r1 = if has_order { x_run(&db.q, &t1, join) } else { r0.clone() };
+    let order_panicked = matches!(&r1, Err(e) if e.starts_with("panic"));
+    if has_order && !inconsistent {
+        let ok = match (&r0, &r1) {
+            (Ok(x), Ok(y)) => {
+                let mut cx: Vec<&String> = x.iter().map(|r| &r.canon).collect();
+                let mut cy: Vec<&String> = y.iter().map(|r| &r.canon).collect();
+                cx.sort();
+                cy.sort();
+                cx == cy && y.windows(2).all(|w| x_doc_cmp(&st.order, &w[0], &w[1]).map_or(true, |c| c != std::cmp::Ordering::Greater))
+            }
+            (Err(_), Err(_)) => true,
+            _ => false,
+        };
+        if !ok {
+            viol.push((
+                format!("{site}/order_by_result_is_not_a_sorted_permutation_of_the_unordered_result"),
+                format!("`{t1}` returned {} ; without ORDER BY: {}", x_show(&r1), x_show(&r0)),
+            ));
+        }
+    }
+    // R2
+    let t2 = st.text(true, true, false);
+    let r2 = if st.offset != XC::Absent { x_run(&db.q, &t2, join) } else { r1.clone() };
+    if let XC::Lit(o) = st.offset {
+        let want: XRows = r1.clone().map(|v| v.into_iter().skip(o as usize).collect());
+        if !same(&r2, &want) {
+            viol.push((
+                format!("{site}/offset_result_is_not_the_result_without_offset_minus_its_first_rows"),
+                format!("`{t2}` returned {} ; without OFFSET: {}", x_show(&r2), x_show(&r1)),
+            ));
+        }
+    }
+    // R3
+    let t3 = st.text(true, true, true);
+    let r3 = if st.limit != XC::Absent { x_run(&db.q, &t3, join) } else { r2.clone() };
+    if let XC::Lit(k) = st.limit {
+        let want: XRows = r2.clone().map(|v| v.into_iter().take(k as usize).collect());
+        if !same(&r3, &want) {
+            viol.push((
+                format!("{site}/limit_result_is_not_the_prefix_of_the_unlimited_result"),
+                format!("`{t3}` returned {} ; the same statement without LIMIT returns {}", x_show(&r3), x_show(&r2)),
+            ));
+        }
+    }
+    // the model's input is the direct call's answer
+    let model = match &base {
+        Ok(b) => {
+            let rows = if b.is_empty() {
+                "-".to_string()
+            } else {
+                b.iter()
+                    .map(|r| {
+                        if r.keys.is_empty() {
+                            "_".to_string()
+                        } else {
+                            r.keys.iter().map(|(c, k)| format!("{c}={}", k.map_or("n".to_string(), |x| x.to_string()))).collect::<Vec<_>>().join(",")
+                        }
+                    })
+                    .collect::<Vec<_>>()
+                    .join(";")
+            };
+            let line = format!("xsel 0 {} {} {} {}", st.model_order(), st.limit.model(), st.offset.model(), rows);
+            let real = match &r3 {
+                Ok(v) => {
+                    let pos: Vec<String> = v
+                        .iter()
+                        .map(|r| b.iter().position(|x| x.canon == r.canon).map_or("?".to_string(), |p| p.to_string()))
+                        .collect();
+                    format!("rows {}", if pos.is_empty() { "-".to_string() } else { pos.join(",") })
+                }
+                Err(e) => format!("error {}", e.chars().take(80).collect::<String>()),
+            };
+            Some((line, real))
+        }
+        Err(_) => None,
+    };
+    XEval { viol, model, base_len: base.as_ref().map_or(0, |b| b.len()), final_len: r3.as_ref().map_or(0, |v| v.len()), inconsistent, order_panicked }
+}
+
+fn xs_fails(t: &[XRow], u: &[URow], st: &XStmt, class: &str) -> bool {
+    let db = xdb(t, u);
+    xs_eval(&db, st).viol.iter().any(|(c, _)| c == class)
+}
+
+/// smaller tables first, then fewer clauses, then smaller numbers; the class must stay the same
+fn xs_shrink(t: &[XRow], u: &[URow], st: &XStmt, class: &str) -> (Vec<XRow>, Vec<URow>, XStmt) {
+    let mut st = st.clone();
+    let mut t: Vec<XRow> = t.to_vec();
+    let mut u: Vec<URow> = u.to_vec();
+    for _round in 0..3 {
+        let (st2, u2) = (st.clone(), u.clone());
+        t = shrink_list(&t, &mut |rows: &[XRow]| xs_fails(rows, &u2, &st2, class));
+        let t2 = t.clone();
+        u = shrink_list(&u, &mut |rows: &[URow]| xs_fails(&t2, rows, &st2, class));
+        let mut changed = false;
+        loop {
+            let mut cands: Vec<XStmt> = Vec::new();
+            if st.cond.is_some() {
+                let mut c = st.clone();
+                c.cond = None;
+                cands.push(c);
+            }
+            if st.proj.is_some() {
+                let mut c = st.clone();
+                c.proj = None;
+                cands.push(c);
+            }
+            for i in 0..st.order.len() {
+                let mut c = st.clone();
+                c.order.remove(i);
+                cands.push(c);
+            }
+            for i in 0..st.order.len() {
+                if st.order[i].nulls.is_some() || st.order[i].desc || st.order[i].asc_written {
+                    let mut c = st.clone();
+                    c.order[i].nulls = None;
+                    c.order[i].desc = false;
+                    c.order[i].asc_written = false;
+                    cands.push(c);
+                }
+            }
+            if st.offset != XC::Absent {
+                let mut c = st.clone();
+                c.offset = XC::Absent;
+                cands.push(c);
+            }
+            if let XC::Lit(o) = st.offset {
+                for o2 in [0, 1, o / 2, o.saturating_sub(1)] {
+                    if o2 < o {
+                        let mut c = st.clone();
+                        c.offset = XC::Lit(o2);
+                        cands.push(c);
+                    }
+                }
+            }
+            if st.limit != XC::Absent {
+                let mut c = st.clone();
+                c.limit = XC::Absent;
+                cands.push(c);
+            }
+            if let XC::Lit(k) = st.limit {
+                for k2 in [0, 1, k / 2, k.saturating_sub(1)] {
+                    if k2 < k {
+                        let mut c = st.clone();
+                        c.limit = XC::Lit(k2);
+                        cands.push(c);
+                    }
+                }
+            }
+            match cands.into_iter().find(|c| xs_fails(&t, &u, c, class)) {
+                Some(c) => {
+                    st = c;
+                    changed = true;
+                }
+                None => break,
+            }
+        }
+        if !changed {
+            break;
+        }
+    }
+    (t, u, st)
+}
+
+fn x_rows_json(t: &[XRow], u: &[URow]) -> serde_json::Value {
+    json!({
+        "t(a, b, name)": t.iter().map(|r| json!([r.a, r.b, r.name])).collect::<Vec<_>>(),
+        "u(a, w)": u.iter().map(|r| json!([r.a, r.w])).collect::<Vec<_>>(),
+    })
+}
+
+struct XCtx {
+    reported: std::collections::BTreeSet<String>,
+    /// stop consulting the model after its first disagreement (the oracles go on, real-only)
+    model_on: bool,
+}
+
+/// run one statement on `db` (built from t, u): oracles on the real outputs, then the model
+fn xs_case(m: &mut Model, rep: &mut Report, cx: &mut XCtx, db: &XDb, t: &[XRow], u: &[URow], st: &XStmt, stream: &str) {
+    let ev = xs_eval(db, st);
+    let text = st.text(true, true, true);
+    let case_key = format!("{text}|{:?}|{:?}", t, u);
+    rep.case(stream, if ev.base_len >= 2 { Some(&case_key) } else { None });
+    let m_ = ev.base_len as u64;
+    for (kw, c) in [("limit", &st.limit), ("offset", &st.offset)] {
+        let tag = match c {
+            XC::Absent => "absent".to_string(),
+            XC::Other(_) => "not_a_literal".to_string(),
+            XC::Lit(n) => {
+                if *n == 0 { "0".into() } else if *n == m_ { "m".into() } else if *n == m_ + 1 { "m+1".into() } else if *n + 1 == m_ { "m-1".into() } else if *n == 1 { "1".into() } else if *n < m_ { "inside".into() } else { "beyond".into() }
+            }
+        };
+        rep.hit(&format!("xsel.{kw}.{tag}"));
+        if tag == "0" && ev.base_len > 0 {
+            rep.hit(&format!("xsel.{kw}.0.on_nonempty_result"));
+        }
+    }
+    rep.hit(if st.join.is_some() { "xsel.shape.join" } else { "xsel.shape.single_table" });
+    if !st.order.is_empty() {
+        rep.hit(&format!("xsel.order.items.{}", st.order.len().min(3)));
+        if st.order.iter().any(|o| o.desc) {
+            rep.hit("xsel.order.desc");
+        }
+        if st.order.iter().any(|o| o.nulls.is_some()) {
+            rep.hit("xsel.order.nulls_clause");
+        }
+    }
+    if st.proj.is_some() {
+        rep.hit("xsel.projection.columns");
+    }
+    if st.cond.is_some() {
+        rep.hit("xsel.where");
+    }
+    rep.hit(&format!("xsel.result_rows.{}", ev.final_len.min(9)));
+    for (class, what) in &ev.viol {
+        rep.hit(&format!("xsel.violation.{class}"));
+        if cx.reported.insert(class.clone()) {
+            let (t2, u2, st2) = xs_shrink(t, u, st, class);
+            let db2 = xdb(&t2, &u2);
+            let ev2 = xs_eval(&db2, &st2);
+            let what2 = ev2.viol.iter().find(|(c, _)| c == class).map_or(what.clone(), |(_, w)| w.clone());
+            rep.violation(
+                class,
+                &what2,
+                json!({"text": st2.text(true, true, true), "tables": x_rows_json(&t2, &u2), "found_as": text, "found_on": x_rows_json(t, u)}),
+            );
+        }
+    }
+    if ev.inconsistent {
+        rep.hit("xsel.order.rows_outside_the_comparators_order");
+        if ev.order_panicked {
+            rep.hit("xsel.candidate.order_by_panics_on_outer_join_rows");
+        }
+    }
+    if cx.model_on {
+        if let Some((line, real)) = &ev.model {
+            let ans = m.ask(line);
+            let real = if ev.inconsistent { &"outside".to_string() } else { real };
+            if !rep.compare("xsel.model", || json!({"text": text, "tables": x_rows_json(t, u), "model_op": line}), real, &ans) {
+                cx.model_on = false;
+            }
+        }
+    }
+}
+
+fn x_boundaries(m: usize) -> Vec<XC> {
+    let mut v = vec![XC::Absent, XC::Lit(0), XC::Lit(1)];
+    for n in [m.saturating_sub(1), m, m + 1] {
+        if !v.contains(&XC::Lit(n as u64)) {
+            v.push(XC::Lit(n as u64));
+        }
+    }
+    v
+}
+
+const X_JOINS: [&str; 8] = [
+    "JOIN u ON t.a = u.a",
+    "INNER JOIN u ON t.a = u.a",
+    "LEFT JOIN u ON t.a = u.a",
+    "RIGHT JOIN u ON t.a = u.a",
+    "FULL JOIN u ON t.a = u.a",
+    "CROSS JOIN u",
+    "NATURAL JOIN u",
+    "LEFT OUTER JOIN u ON t.a = u.a",
+];
+
+fn x_ord(col: &'static str, desc: bool, nulls: Option<bool>) -> XOrd {
+    XOrd { col, desc, asc_written: false, nulls }
+}
+
+fn x_directed_rows(n: usize) -> (Vec<XRow>, Vec<URow>) {
+    // ties on a, NULLs in every column, names out of order
+    let all = [
+        XRow { a: Some(2), b: Some(1), name: Some("y") },
+        XRow { a: None, b: Some(1), name: Some("x") },
+        XRow { a: Some(1), b: None, name: Some("z") },
+        XRow { a: Some(2), b: Some(0), name: None },
+        XRow { a: Some(1), b: Some(1), name: Some("x") },
+    ];
+    let us = [URow { a: Some(2), w: 20 }, URow { a: Some(1), w: 10 }, URow { a: Some(2), w: 21 }, URow { a: None, w: 30 }, URow { a: Some(9), w: 90 }];
+    (all[..n.min(all.len())].to_vec(), us[..(n + 1).min(us.len())].to_vec())
+}
+
+fn x_shapes() -> Vec<XStmt> {
+    let base = XStmt { proj: None, join: None, cond: None, order: vec![], limit: XC::Absent, offset: XC::Absent };
+    let mut v = vec![base.clone()];
+    v.push(XStmt { cond: Some(Cond::Leaf("a", ">=", 1)), ..base.clone() });
+    v.push(XStmt { order: vec![x_ord("a", false, None)], ..base.clone() });
+    v.push(XStmt { order: vec![x_ord("a", true, None), x_ord("b", false, None)], ..base.clone() });
+    v.push(XStmt { order: vec![x_ord("name", false, Some(true))], cond: Some(Cond::Leaf("b", "!=", 7)), ..base.clone() });
+    v.push(XStmt { proj: Some(vec!["name", "a"]), order: vec![x_ord("a", false, Some(false))], ..base.clone() });
+    v.push(XStmt { proj: Some(vec!["b"]), ..base.clone() });
+    v.push(XStmt { join: Some(X_JOINS[0]), ..base.clone() });
+    v.push(XStmt { join: Some(X_JOINS[0]), order: vec![x_ord("u.w", true, None)], ..base.clone() });
+    v.push(XStmt { join: Some(X_JOINS[2]), order: vec![x_ord("t.b", false, None), x_ord("w", false, None)], ..base.clone() });
+    v.push(XStmt { join: Some(X_JOINS[5]), cond: Some(Cond::Leaf("u.w", ">", 10)), ..base.clone() });
+    v.push(XStmt { join: Some(X_JOINS[6]), ..base });
+    v
+}
+
+fn xs_directed(m: &mut Model, rep: &mut Report, cx: &mut XCtx, rng: &Rng) {
+    let mut r = rng.fork("xsel.directed");
+    // the smallest history first: one row, LIMIT 0 (and its neighbours LIMIT 1, LIMIT 2), with and without a join
+    for n in [1usize, 2, 0, 3, 4, 5] {
+        let (t, u) = x_directed_rows(n);
+        let db = xdb(&t, &u);
+        for shape in x_shapes() {
+            let m_rows = x_direct(&db, &shape).map_or(0, |b| b.len());
+            for lim in x_boundaries(m_rows) {
+                for off in x_boundaries(m_rows) {
+                    let st = XStmt { limit: lim.clone(), offset: off, ..shape.clone() };
+                    xs_case(m, rep, cx, &db, &t, &u, &st, "xsel.directed");
+                }
+            }
+        }
+        xs_aggregates(rep, cx, &db, &t, &u, &mut r, "xsel.directed.aggregate");
+        xs_dml(rep, cx, &t, &u, &mut r, "xsel.directed.dml");
+    }
+}
+
+fn x_gen_rows(r: &mut Rng) -> (Vec<XRow>, Vec<URow>) {
+    let n = if r.chance(1, 8) { 0 } else { 1 + r.below(8) as usize };
+    let t = (0..n)
+        .map(|_| XRow {
+            a: if r.chance(1, 4) { None } else { Some(r.below(3) as i64) },
+            b: if r.chance(1, 4) { None } else { Some(r.below(2) as i64) },
+            name: if r.chance(1, 5) { None } else { Some(*r.pick(&["x", "y", "z"])) },
+        })
+        .collect();
+    let k = r.below(5) as usize;
+    let u = (0..k).map(|i| URow { a: if r.chance(1, 5) { None } else { Some(r.below(4) as i64) }, w: 10 * (1 + r.below(3) as i64) + i as i64 % 2 }).collect();
+    (t, u)
+}
+
+fn x_gen_shape(r: &mut Rng) -> XStmt {
+    let join = if r.chance(1, 3) { Some(*r.pick(&X_JOINS)) } else { None };
+    let cond = if r.chance(1, 2) {
+        None
+    } else if join.is_some() {
+        Some(Cond::Leaf("u.w", *r.pick(&["=", "!=", "<", "<=", ">", ">="]), 10 * (1 + r.below(3) as i64)))
+    } else {
+        let leaf = |r: &mut Rng| {
+            if r.chance(1, 5) {
+                Cond::Name(*r.pick(&["=", "!="]), *r.pick(&["x", "y", "z"]))
+            } else {
+                Cond::Leaf(*r.pick(&["a", "b"]), *r.pick(&["=", "!=", "<", "<=", ">", ">="]), r.below(3) as i64)
+            }
+        };
+        let l = leaf(r);
+        Some(if r.chance(1, 3) {
+            let rr = leaf(r);
+            if r.chance(1, 2) { Cond::And(Box::new(l), Box::new(rr)) } else { Cond::Or(Box::new(l), Box::new(rr)) }
+        } else {
+            l
+        })
+    };
+    let proj = if join.is_none() && r.chance(1, 3) {
+        let mut cols = vec!["a", "b", "name"];
+        r.shuffle(&mut cols);
+        cols.truncate(1 + r.below(3) as usize);
+        Some(cols)
+    } else {
+        None
+    };
+    let n_items = if r.chance(1, 3) { 0 } else { 1 + r.below(3) as usize };
+    let pool: &[&'static str] = if join.is_some() { &["t.a", "t.b", "t.name", "u.a", "u.w", "w", "b", "name"] } else { &["a", "b", "name"] };
+    let order = (0..n_items)
+        .map(|_| XOrd {
+            col: *r.pick(pool),
+            desc: r.chance(1, 2),
+            asc_written: r.chance(1, 3),
+            nulls: if r.chance(1, 3) { Some(r.chance(1, 2)) } else { None },
+        })
+        .collect();
+    XStmt { proj, join, cond, order, limit: XC::Absent, offset: XC::Absent }
+}
+
+fn x_gen_clause(r: &mut Rng, m: usize) -> XC {
+    match r.below(12) {
+        0 | 1 => XC::Absent,
+        2 | 3 => XC::Lit(0),
+        4 => XC::Lit(1),
+        5 => XC::Lit(m.saturating_sub(1) as u64),
+        6 => XC::Lit(m as u64),
+        7 => XC::Lit(m as u64 + 1),
+        8 | 9 => XC::Lit(r.below(m as u64 + 3)),
+        10 => XC::Lit(1000 + r.below(1 << 40)),
+        _ => XC::Other(*r.pick(&["1 + 1", "-1", "2.0", "NULL", "'1'"])),
+    }
+}
+
+fn stream_xsel(m: &mut Model, rep: &mut Report, rng: &Rng, thorough: bool, cx: &mut XCtx) {
+    let mut r = rng.fork("xsel");
+    let dbs = if thorough { 1500 } else { 120 };
+    for i in 0..dbs {
+        let (t, u) = x_gen_rows(&mut r);
+        let db = xdb(&t, &u);
+        xs_aggregates(rep, cx, &db, &t, &u, &mut r, "xsel.random.aggregate");
+        if i % 4 == 0 {
+            xs_dml(rep, cx, &t, &u, &mut r, "xsel.random.dml");
+        }
+        for _ in 0..40 {
+            let shape = x_gen_shape(&mut r);
+            let m_rows = x_direct(&db, &shape).map_or(0, |b| b.len());
+            let st = XStmt { limit: x_gen_clause(&mut r, m_rows), offset: x_gen_clause(&mut r, m_rows), ..shape };
+            xs_case(m, rep, cx, &db, &t, &u, &st, "xsel.random");
+        }
+    }
+}
+
+
+// ---- aggregates, GROUP BY / HAVING: the text route against the engine's aggregate calls and against groups
+// computed from the direct row query
+
+fn x_val(v: &RV) -> String {
+    match v {
+        // floats that are exactly representable here (sums / averages of small integers) compare as bits
+        RV::Float(f) => format!("Float({:016x})", f.to_bits()),
+        other => format!("{other:?}"),
+    }
+}
+
+fn x_cells_sorted(r: &relational_engine::Row) -> String {
+    let mut c: Vec<String> = r.values.iter().map(|(k, v)| format!("{k}={}", x_val(v))).collect();
+    c.sort();
+    c.join(",")
+}
+
+fn xs_aggregates(rep: &mut Report, cx: &mut XCtx, db: &XDb, t: &[XRow], u: &[URow], r: &mut Rng, stream: &str) {
+    let rel = db.q.relational();
+    let conds: Vec<Option<Cond>> = vec![
+        None,
+        Some(Cond::Leaf("b", "=", 1)),
+        Some(Cond::Leaf("a", ">=", r.below(3) as i64)),
+        Some(Cond::Leaf("a", ">", 99)),
+        Some(Cond::Or(Box::new(Cond::Leaf("a", "=", 1)), Box::new(Cond::Name("=", "x")))),
+    ];
+    for c in conds {
+        let (wtext, direct) = match &c {
+            None => (String::new(), Condition::True),
+            Some(c) => {
+                let mut w = String::from(" WHERE ");
+                c.print(false, &mut w);
+                (w, c.direct())
+            }
+        };
+        // ---- whole-table aggregates = the engine's aggregate calls
+        let tail = ["", " LIMIT 0", " LIMIT 5 OFFSET 3", " ORDER BY a DESC"][r.below(4) as usize];
+        let text = format!("SELECT COUNT(*), COUNT(a), SUM(a), AVG(a), MIN(a), MAX(a), MIN(name), MAX(name) FROM t{wtext}{tail}");
+        rep.case(stream, Some(&format!("{text}|{t:?}")));
+        rep.hit("xsel.family.aggregate");
+        let got = match guarded(std::panic::AssertUnwindSafe(|| db.q.execute_parsed(&text))) {
+            Ok(Ok(query_router::QueryResult::Rows(rows))) => rows.iter().map(x_cells_sorted).collect::<Vec<_>>().join(" | "),
+            Ok(o) => canon_qr(&o),
+            Err(p) => format!("panic {p}"),
+        };
+        let want = (|| -> std::result::Result<String, String> {
+            let e = |e: relational_engine::RelationalError| format!("error {e:?}");
+            let opt = |v: Option<RV>| v.unwrap_or(RV::Null);
+            let mut cells = vec![
+                format!("COUNT(*)={}", x_val(&RV::Int(rel.count("t", direct.clone()).map_err(e)? as i64))),
+                format!("COUNT(a)={}", x_val(&RV::Int(rel.count_column("t", "a", direct.clone()).map_err(e)? as i64))),
+                format!("SUM(a)={}", x_val(&RV::Float(rel.sum("t", "a", direct.clone()).map_err(e)?))),
+                format!("AVG(a)={}", x_val(&rel.avg("t", "a", direct.clone()).map_err(e)?.map_or(RV::Null, RV::Float))),
+                format!("MIN(a)={}", x_val(&opt(rel.min("t", "a", direct.clone()).map_err(e)?))),
+                format!("MAX(a)={}", x_val(&opt(rel.max("t", "a", direct.clone()).map_err(e)?))),
+                format!("MIN(name)={}", x_val(&opt(rel.min("t", "name", direct.clone()).map_err(e)?))),
+                format!("MAX(name)={}", x_val(&opt(rel.max("t", "name", direct.clone()).map_err(e)?))),
+            ];
+            cells.sort();
+            Ok(cells.join(","))
+        })()
+        .unwrap_or_else(|e| e);
+        if got != want {
+            let class = "query_router::QueryRouter::try_exec_aggregates/aggregate_differs_from_direct_engine_call";
+            rep.hit(&format!("xsel.violation.{class}"));
+            if cx.reported.insert(class.to_string()) {
+                rep.violation(class, &format!("`{text}` returned [{got}] but the engine's aggregate calls return [{want}]"),
+                    json!({"text": text, "tables": x_rows_json(t, u)}));
+            }
+        }
+        // ---- GROUP BY a [HAVING COUNT(*) > h]: groups computed from the direct row query
+        let having = if r.chance(1, 2) { Some(r.below(3) as i64) } else { None };
+        let text = format!(
+            "SELECT a, COUNT(*), COUNT(b), SUM(b), MIN(name) FROM t{wtext} GROUP BY a{}",
+            having.map_or(String::new(), |h| format!(" HAVING COUNT(*) > {h}"))
+        );
+        rep.case(stream, Some(&format!("{text}|{t:?}")));
+        rep.hit(if having.is_some() { "xsel.family.group_by_having" } else { "xsel.family.group_by" });
+        let got = match guarded(std::panic::AssertUnwindSafe(|| db.q.execute_parsed(&text))) {
+            Ok(Ok(query_router::QueryResult::Rows(rows))) => {
+                let mut v: Vec<String> = rows.iter().map(x_cells_sorted).collect();
+                v.sort();
+                v.join(" | ")
+            }
+            Ok(o) => canon_qr(&o),
+            Err(p) => format!("panic {p}"),
+        };
+        let want = match rel.select("t", direct.clone()) {
+            Err(e) => format!("error {e:?}"),
+            Ok(rows) => {
+                let get = |r: &relational_engine::Row, c: &str| r.values.iter().find(|(k, _)| k == c).map_or(RV::Null, |(_, v)| v.clone());
+                let mut groups: Vec<(RV, Vec<&relational_engine::Row>)> = Vec::new();
+                for row in &rows {
+                    let k = get(row, "a");
+                    match groups.iter_mut().find(|(g, _)| format!("{g:?}") == format!("{k:?}")) {
+                        Some((_, v)) => v.push(row),
+                        None => groups.push((k, vec![row])),
+                    }
+                }
+                let mut v: Vec<String> = groups
+                    .iter()
+                    .filter(|(_, g)| having.map_or(true, |h| g.len() as i64 > h))
+                    .map(|(k, g)| {
+                        let count_b = g.iter().filter(|r| !matches!(get(r, "b"), RV::Null)).count();
+                        let sum_b: f64 = g.iter().map(|r| if let RV::Int(i) = get(r, "b") { i as f64 } else { 0.0 }).sum();
+                        let min_name = g.iter().filter_map(|r| if let RV::String(s) = get(r, "name") { Some(s) } else { None }).min();
+                        let mut cells = vec![
+                            format!("a={}", x_val(k)),
+                            format!("COUNT(*)={}", x_val(&RV::Int(g.len() as i64))),
+                            format!("COUNT(b)={}", x_val(&RV::Int(count_b as i64))),
+                            format!("SUM(b)={}", x_val(&RV::Float(sum_b))),
+                            format!("MIN(name)={}", x_val(&min_name.map_or(RV::Null, RV::String))),
+                        ];
+                        cells.sort();
+                        cells.join(",")
+                    })
+                    .collect();
+                v.sort();
+                v.join(" | ")
+            }
+        };
+        if got != want {
+            let class = "query_router::QueryRouter::exec_grouped_aggregates/groups_differ_from_direct_engine_call";
+            rep.hit(&format!("xsel.violation.{class}"));
+            if cx.reported.insert(class.to_string()) {
+                rep.violation(class, &format!("`{text}` returned [{got}] but grouping the rows of RelationalEngine::select gives [{want}]"),
+                    json!({"text": text, "tables": x_rows_json(t, u)}));
+            }
+        }
+    }
+}
+
+// ---- INSERT / UPDATE / DELETE: result (row count / ids) AND table state, text on A, direct call on B
+
+fn xs_dml(rep: &mut Report, cx: &mut XCtx, t: &[XRow], u: &[URow], r: &mut Rng, stream: &str) {
+    let lit = |v: &Option<i64>| v.map_or("NULL".to_string(), |x| x.to_string());
+    let gen_cond = |r: &mut Rng| -> Option<Cond> {
+        match r.below(4) {
+            0 => None,
+            1 => Some(Cond::Leaf(*r.pick(&["a", "b"]), *r.pick(&["=", "!=", "<", ">="]), r.below(3) as i64)),
+            2 => Some(Cond::Name(*r.pick(&["=", "!="]), *r.pick(&["x", "y", "z"]))),
+            _ => Some(Cond::Leaf("a", ">", 99)),
+        }
+    };
+    for kind in 0..4 {
+        let (a, b) = (xdb(t, u), xdb(t, u));
+        let c = gen_cond(r);
+        let (wtext, direct) = match &c {
+            None => (String::new(), Condition::True),
+            Some(c) => {
+                let mut w = String::from(" WHERE ");
+                c.print(false, &mut w);
+                (w, c.direct())
+            }
+        };
+        let (text, got, want) = match kind {
+            0 => {
+                let text = format!("DELETE FROM t{wtext}");
+                rep.hit(if c.is_none() { "xsel.family.delete_all" } else { "xsel.family.delete_where" });
+                let want = match b.q.relational().delete_rows("t", direct) {
+                    Ok(n) => format!("count {n}"),
+                    Err(e) => format!("error {e:?}"),
+                };
+                (text.clone(), canon_qr(&a.q.execute_parsed(&text)), want)
+            }
+            1 => {
+                let (vb, vn) = (r.below(9) as i64 + 10, *r.pick(&["p", "q"]));
+                let text = format!("UPDATE t SET b = {vb}, name = '{vn}'{wtext}");
+                rep.hit("xsel.family.update");
+                let mut up = std::collections::HashMap::new();
+                up.insert("b".to_string(), RV::Int(vb));
+                up.insert("name".to_string(), RV::String(vn.to_string()));
+                let want = match b.q.relational().update("t", direct, up) {
+                    Ok(n) => format!("count {n}"),
+                    Err(e) => format!("error {e:?}"),
+                };
+                (text.clone(), canon_qr(&a.q.execute_parsed(&text)), want)
+            }
+            2 => {
+                // several rows in one statement, NULLs included
+                let k = 1 + r.below(3) as usize;
+                let rows: Vec<XRow> = (0..k)
+                    .map(|_| XRow {
+                        a: if r.chance(1, 3) { None } else { Some(r.below(50) as i64) },
+                        b: if r.chance(1, 3) { None } else { Some(r.below(50) as i64) },
+                        name: if r.chance(1, 3) { None } else { Some(*r.pick(&["x", "y", "z"])) },
+                    })
+                    .collect();
+                let tuples: Vec<String> = rows
+                    .iter()
+                    .map(|x| format!("({}, {}, {})", lit(&x.a), lit(&x.b), x.name.map_or("NULL".to_string(), |s| format!("'{s}'"))))
+                    .collect();
+                let text = format!("INSERT INTO t (a, b, name) VALUES {}", tuples.join(", "));
+                rep.hit("xsel.family.insert_rows");
+                let mut ids = Vec::new();
+                let mut err = None;
+                for x in &rows {
+                    match b.q.relational().insert("t", x_row_map(x)) {
+                        Ok(id) => ids.push(id),
+                        Err(e) => {
+                            err = Some(format!("error {e:?}"));
+                            break;
+                        }
+                    }
+                }
+                (text.clone(), canon_qr(&a.q.execute_parsed(&text)), err.unwrap_or(format!("ids {ids:?}")))
+            }
+            _ => {
+                // no column list: values in schema order
+                let x = XRow { a: Some(r.below(50) as i64), b: Some(r.below(50) as i64), name: Some(*r.pick(&["x", "y", "z"])) };
+                let text = format!("INSERT INTO t VALUES ({}, {}, '{}')", lit(&x.a), lit(&x.b), x.name.unwrap());
+                rep.hit("xsel.family.insert_positional");
+                let want = match b.q.relational().insert("t", x_row_map(&x)) {
+                    Ok(id) => format!("ids [{id}]"),
+                    Err(e) => format!("error {e:?}"),
+                };
+                (text.clone(), canon_qr(&a.q.execute_parsed(&text)), want)
+            }
+        };
+        rep.case(stream, Some(&format!("{text}|{t:?}")));
+        let (sa, sb) = (table_state(&a.q), table_state(&b.q));
+        if sa != sb {
+            let class = "query_router::QueryRouter::execute_parsed/effect_differs_from_direct_call";
+            rep.hit(&format!("xsel.violation.{class}"));
+            if cx.reported.insert(class.to_string()) {
+                rep.violation(class, &format!("after `{text}` the table is [{}] ; after the direct call [{}]", &sa[..sa.len().min(200)], &sb[..sb.len().min(200)]),
+                    json!({"text": text, "tables": x_rows_json(t, u)}));
+            }
+        }
+        if got != want {
+            let class = "query_router::QueryRouter::execute_parsed/result_differs_from_direct_call";
+            rep.hit(&format!("xsel.violation.{class}"));
+            if cx.reported.insert(class.to_string()) {
+                rep.violation(class, &format!("`{text}` answered {got} ; the direct call {want}"), json!({"text": text, "tables": x_rows_json(t, u)}));
+            }
+        }
+    }
+}
+
+// ---- graph and vector statement families: LIST / FIND / SHOW EMBEDDINGS / SIMILAR windows, NEIGHBORS, PATH
+
+fn xs_families(m: &mut Model, rep: &mut Report, cx: &mut XCtx, thorough: bool) {
+    let q = query_router::QueryRouter::new();
+    let setup = [
+        "NODE CREATE person {name: 'A', age: 1}",
+        "NODE CREATE person {name: 'B', age: 2}",
+        "NODE CREATE person {name: 'C', age: 3}",
+        "NODE CREATE person {name: 'D', age: 4}",
+        "NODE CREATE person {name: 'E', age: 5}",
+        "NODE CREATE city {name: 'X'}",
+        "NODE CREATE city {name: 'Y'}",
+        "EDGE CREATE 1 -> 2 : knows",
+        "EDGE CREATE 2 -> 3 : knows",
+        "EDGE CREATE 3 -> 4 : knows",
+        "EDGE CREATE 4 -> 5 : knows",
+        "EDGE CREATE 1 -> 6 : lives",
+        "EDGE CREATE 2 -> 6 : lives",
+        "EDGE CREATE 3 -> 7 : lives",
+        "EMBED STORE 'k0' [1.0, 0.0]",
+        "EMBED STORE 'k1' [0.0, 1.0]",
+        "EMBED STORE 'k2' [1.0, 1.0]",
+        "EMBED STORE 'k3' [1.0, 0.5]",
+        "EMBED STORE 'k4' [0.25, 1.0]",
+    ];
+    for s in setup {
+        if let Err(e) = q.execute_parsed(s) {
+            rep.note(&format!("xsel.families: setup statement `{s}` failed: {e:?}"));
+            return;
+        }
+    }
+    let viol = |rep: &mut Report, cx: &mut XCtx, class: &str, what: String, text: &str| {
+        rep.hit(&format!("xsel.violation.{class}"));
+        if cx.reported.insert(class.to_string()) {
+            rep.violation(class, &what, json!({"text": text, "setup": setup}));
+        }
+    };
+    let clause = |c: &XC, kw: &str| c.text(kw);
+    let mut other_budget = 2;
+    // NODE LIST / EDGE LIST
+    for (what, filters) in [("NODE", vec![None, Some("person"), Some("city"), Some("nosuch")]), ("EDGE", vec![None, Some("knows"), Some("lives")])] {
+        for f in filters {
+            let ids: Vec<u64> = if what == "NODE" {
+                match f {
+                    None => q.graph().all_nodes().iter().map(|n| n.id).collect(),
+                    Some(l) => q.graph().find_nodes_by_label(l).map(|v| v.iter().map(|n| n.id).collect()).unwrap_or_default(),
+                }
+            } else {
+                match f {
+                    None => q.graph().all_edges().iter().map(|e| e.id).collect(),
+                    Some(t) => q.graph().find_edges_by_type(t).map(|v| v.iter().map(|e| e.id).collect()).unwrap_or_default(),
+                }
+            };
+            let n = ids.len();
+            let mut bounds = x_boundaries(n);
+            bounds.push(XC::Other("-1"));
+            for lim in &bounds {
+                for off in &bounds {
+                    if matches!(lim, XC::Other(_)) || matches!(off, XC::Other(_)) {
+                        if other_budget == 0 && !thorough {
+                            continue;
+                        }
+                        other_budget -= if other_budget > 0 { 1 } else { 0 };
+                    }
+                    let text = format!("{what} LIST{}{}{}", f.map_or(String::new(), |l| format!(" {l}")), clause(lim, "LIMIT"), clause(off, "OFFSET"));
+                    rep.case("xsel.family.list", Some(&text));
+                    rep.hit(if what == "NODE" { "xsel.family.node_list" } else { "xsel.family.edge_list" });
+                    let got: std::result::Result<Vec<u64>, String> = match guarded(std::panic::AssertUnwindSafe(|| q.execute_parsed(&text))) {
+                        Ok(Ok(query_router::QueryResult::Nodes(v))) => Ok(v.iter().map(|x| x.id).collect()),
+                        Ok(Ok(query_router::QueryResult::Edges(v))) => Ok(v.iter().map(|x| x.id).collect()),
+                        Ok(o) => Err(canon_qr(&o)),
+                        Err(p) => Err(format!("panic {p}")),
+                    };
+                    let ans = m.ask(&format!("xlist {} {} {n}", lim.model(), off.model()));
+                    let real = match &got {
+                        Ok(v) => format!("{} items", v.len()),
+                        Err(e) if e.starts_with("error InvalidArgument") => "error".to_string(),
+                        Err(e) => e.clone(),
+                    };
+                    let model_len = if ans == "error" { "error".to_string() } else if ans == "items -" { "0 items".to_string() } else { format!("{} items", ans.trim_start_matches("items ").split(',').count()) };
+                    rep.compare("xsel.model.list", || json!({"text": text, "engine_answer_size": n}), &real, &model_len);
+                    // the property on the real output: a window of the engine's answer of the size the clauses say
+                    if let (XC::Absent | XC::Lit(_), XC::Absent | XC::Lit(_)) = (lim, off) {
+                        let k = if let XC::Lit(k) = lim { *k as usize } else { 1000 };
+                        let o = if let XC::Lit(o) = off { *o as usize } else { 0 };
+                        let want_len = k.min(n.saturating_sub(o));
+                        let ok = match &got {
+                            Ok(v) => {
+                                let set: std::collections::BTreeSet<u64> = v.iter().copied().collect();
+                                v.len() == want_len && set.len() == v.len() && v.iter().all(|i| ids.contains(i))
+                            }
+                            Err(_) => false,
+                        };
+                        if !ok {
+                            let class = format!("query_router::QueryRouter::exec_{}/list_result_is_not_a_window_of_the_direct_call_of_the_size_limit_and_offset_say", what.to_lowercase());
+                            viol(rep, cx, &class, format!("`{text}` returned {got:?}; the direct call has {n} items {ids:?}, so the window has {want_len}"), &text);
+                        }
+                    }
+                }
+            }
+        }
+    }
+    // FIND NODE … [WHERE …] [LIMIT k]
+    for (pat, wh, matching) in [("FIND NODE person", " WHERE age > 2", vec![3u64, 4, 5]), ("FIND NODE person", "", vec![1, 2, 3, 4, 5]), ("FIND EDGE knows", "", vec![1, 2, 3, 4])] {
+        let n = matching.len();
+        for lim in x_boundaries(n) {
+            let text = format!("{pat}{wh}{}", lim.text("LIMIT"));
+            rep.case("xsel.family.find", Some(&text));
+            rep.hit("xsel.family.find");
+            let got: std::result::Result<Vec<u64>, String> = match guarded(std::panic::AssertUnwindSafe(|| q.execute_parsed(&text))) {
+                Ok(Ok(query_router::QueryResult::Unified(u))) => Ok(u.items.iter().map(|i| i.id.parse::<u64>().unwrap_or(0)).collect()),
+                Ok(o) => Err(canon_qr(&o)),
+                Err(p) => Err(format!("panic {p}")),
+            };
+            if !wh.is_empty() {
+                let ans = m.ask(&format!("xtake {} {n}", lim.model()));
+                let model_len = if ans == "items -" { "0 items".to_string() } else { format!("{} items", ans.trim_start_matches("items ").split(',').count()) };
+                let real = got.as_ref().map_or_else(|e| e.clone(), |v| format!("{} items", v.len()));
+                rep.compare("xsel.model.find", || json!({"text": text}), &real, &model_len);
+            }
+            let want_len = if let XC::Lit(k) = lim { (k as usize).min(n) } else { n };
+            let ok = match &got {
+                Ok(v) => {
+                    let set: std::collections::BTreeSet<u64> = v.iter().copied().collect();
+                    v.len() == want_len && set.len() == v.len() && v.iter().all(|i| matching.contains(i))
+                }
+                Err(_) => false,
+            };
+            if !ok {
+                viol(rep, cx, "query_router::QueryRouter::exec_find/result_is_not_the_first_rows_of_the_matching_items",
+                    format!("`{text}` returned {got:?}; matching items {matching:?}, expected {want_len} of them"), &text);
+            }
+        }
+    }
+    // SHOW EMBEDDINGS [LIMIT k]
+    let keys = q.vector().list_keys();
+    for lim in x_boundaries(keys.len()) {
+        let text = format!("SHOW EMBEDDINGS{}", lim.text("LIMIT"));
+        rep.case("xsel.family.show_embeddings", Some(&text));
+        rep.hit("xsel.family.show_embeddings");
+        let got = match guarded(std::panic::AssertUnwindSafe(|| q.execute_parsed(&text))) {
+            Ok(Ok(query_router::QueryResult::Value(s))) => Ok(s),
+            Ok(o) => Err(canon_qr(&o)),
+            Err(p) => Err(format!("panic {p}")),
+        };
+        let want_len = if let XC::Lit(k) = lim { (k as usize).min(keys.len()) } else { keys.len().min(100) };
+        let ok = match &got {
+            Ok(s) => {
+                let listed: Vec<&String> = keys.iter().filter(|k| s.contains(&format!("\"{k}\""))).collect();
+                listed.len() == want_len && s.matches('"').count() == 2 * want_len
+            }
+            Err(_) => false,
+        };
+        if !ok {
+            viol(rep, cx, "query_router::QueryRouter::execute_statement/show_embeddings_is_not_the_first_keys_of_the_direct_call",
+                format!("`{text}` returned {got:?}; VectorEngine::list_keys has {} keys, expected {want_len} of them", keys.len()), &text);
+        }
+    }
+    // SIMILAR <key | vector> [LIMIT k] = VectorEngine::search_similar(query, k) (10 when not written)
+    for (qtext, qv) in [("'k0'", vec![1.0f32, 0.0]), ("[0.5, 1.0]", vec![0.5f32, 1.0]), ("'k4'", vec![0.25f32, 1.0])] {
+        for lim in x_boundaries(keys.len()) {
+            let text = format!("SIMILAR {qtext}{}", lim.text("LIMIT"));
+            rep.case("xsel.family.similar", Some(&text));
+            rep.hit("xsel.family.similar");
+            let show = |v: Vec<(String, f32)>| v.iter().map(|(k, s)| format!("{k}:{:08x}", s.to_bits())).collect::<Vec<_>>().join(",");
+            let got = match guarded(std::panic::AssertUnwindSafe(|| q.execute_parsed(&text))) {
+                Ok(Ok(query_router::QueryResult::Similar(v))) => show(v.into_iter().map(|r| (r.key, r.score)).collect()),
+                Ok(o) => canon_qr(&o),
+                Err(p) => format!("panic {p}"),
+            };
+            let k = if let XC::Lit(k) = lim { k as usize } else { 10 };
+            let want = match q.vector().search_similar(&qv, k) {
+                Ok(v) => show(v.into_iter().map(|r| (r.key, r.score)).collect()),
+                Err(_) => "error VectorError".to_string(),
+            };
+            if got != want {
+                viol(rep, cx, "query_router::QueryRouter::exec_similar/result_differs_from_direct_call",
+                    format!("`{text}` returned {got}; VectorEngine::search_similar(query, {k}) returns {want}"), &text);
+            }
+        }
+    }
+    // NEIGHBORS / PATH: delegated entirely; the ids must be the direct call's
+    for id in 1..=7u64 {
+        for (dtext, dir) in [("OUTGOING", graph_engine::Direction::Outgoing), ("INCOMING", graph_engine::Direction::Incoming), ("BOTH", graph_engine::Direction::Both)] {
+            for ty in [None, Some("knows"), Some("lives")] {
+                let text = format!("NEIGHBORS {id} {dtext}{}", ty.map_or(String::new(), |t| format!(" : {t}")));
+                rep.case("xsel.family.neighbors", Some(&text));
+                rep.hit("xsel.family.neighbors");
+                let got = match guarded(std::panic::AssertUnwindSafe(|| q.execute_parsed(&text))) {
+                    Ok(Ok(query_router::QueryResult::Ids(mut v))) => {
+                        v.sort();
+                        format!("{v:?}")
+                    }
+                    Ok(o) => canon_qr(&o),
+                    Err(p) => format!("panic {p}"),
+                };
+                let want = match q.graph().neighbors(id, ty, dir, None) {
+                    Ok(v) => {
+                        let mut ids: Vec<u64> = v.iter().map(|n| n.id).collect();
+                        ids.sort();
+                        format!("{ids:?}")
+                    }
+                    Err(_) => "error GraphError".to_string(),
+                };
+                if got != want {
+                    viol(rep, cx, "query_router::QueryRouter::exec_neighbors/result_differs_from_direct_call",
+                        format!("`{text}` returned {got}; GraphEngine::neighbors returns {want}"), &text);
+                }
+            }
+        }
+        for to in [1u64, 5, 6, 7] {
+            let text = format!("PATH SHORTEST {id} -> {to}");
+            rep.case("xsel.family.path", Some(&text));
+            rep.hit("xsel.family.path");
+            let got = match guarded(std::panic::AssertUnwindSafe(|| q.execute_parsed(&text))) {
+                Ok(Ok(query_router::QueryResult::Path(v))) => format!("{v:?}"),
+                Ok(o) => canon_qr(&o),
+                Err(p) => format!("panic {p}"),
+            };
+            let want = match q.graph().find_path(id, to, None) {
+                Ok(p) => format!("{:?}", p.nodes),
+                Err(graph_engine::GraphError::PathNotFound) => "[]".to_string(),
+                Err(_) => "error GraphError".to_string(),
+            };
+            if got != want {
+                viol(rep, cx, "query_router::QueryRouter::exec_path/result_differs_from_direct_call",
+                    format!("`{text}` returned {got}; GraphEngine::find_path returns {want}"), &text);
+            }
+        }
+    }
+}
+
+// ---- candidate findings on the UNCHANGED tree: clauses that are parsed and then not (or not as written) applied.
+// They are outside what the oracles above judge; each is re-established on the real outputs at every run and kept
+// as an observation (ExecProps has the corresponding statements about the model of the code).
+
+fn xs_candidates(rep: &mut Report) {
+    let (t, u) = x_directed_rows(5);
+    let db = xdb(&t, &u);
+    let run = |text: &str, join: bool| x_run(&db.q, text, join);
+    let cells = |b: &XB| b.canon.splitn(2, ' ').nth(1).unwrap_or("").to_string();
+    // 1. DISTINCT
+    let text = "SELECT DISTINCT a FROM t";
+    if let Ok(rows) = run(text, false) {
+        let distinct: std::collections::BTreeSet<String> = rows.iter().map(cells).collect();
+        if distinct.len() < rows.len() {
+            rep.hit("xsel.candidate.distinct_returns_duplicates");
+            rep.observe(json!({"candidate_finding": "query_router::QueryRouter::exec_select/distinct_is_not_applied", "text": text, "tables": x_rows_json(&t, &u),
+                "returned_rows": rows.len(), "distinct_rows": distinct.len(), "model": "ExecProps.distinct_is_read_by_no_execution_path"}));
+        }
+    }
+    // 2. sort_rows: DESC reverses the NULLS clause; a sort column missing in some rows and NULL in others is compared
+    //    `Greater` both ways round and `sort_by` panics on this 21-row LEFT JOIN
+    let mut sort_cases = Vec::new();
+    let text = "SELECT * FROM t ORDER BY a DESC NULLS FIRST";
+    if let Ok(rows) = run(text, false) {
+        let is_null = |b: &XB| b.keys.iter().any(|(c, k)| *c == 0 && k.is_none());
+        if rows.iter().any(is_null) && rows.first().map_or(false, |f| !is_null(f)) {
+            rep.hit("xsel.candidate.desc_nulls_first_puts_nulls_last");
+            sort_cases.push(json!({"candidate_finding": "query_router::QueryRouter::sort_rows/desc_reverses_the_nulls_clause", "text": text, "tables": x_rows_json(&t, &u),
+                "returned": x_show(&Ok(rows)), "note": "DESC NULLS LAST puts them first likewise", "model": "ExecProps.desc_nulls_first_puts_nulls_last_witness"}));
+        }
+    }
+    {
+        let ta: [Option<i64>; 21] = [Some(4), Some(3), Some(4), Some(1), Some(3), Some(4), Some(3), Some(1), Some(2), Some(1), None, Some(3), None, Some(4), None, Some(2), None, Some(2), Some(3), Some(2), Some(1)];
+        let t2: Vec<XRow> = ta.iter().map(|a| XRow { a: *a, b: None, name: None }).collect();
+        let u2 = vec![URow { a: None, w: 0 }, URow { a: Some(1), w: 1 }, URow { a: Some(2), w: 2 }];
+        let db2 = xdb(&t2, &u2);
+        let text = "SELECT * FROM t LEFT JOIN u ON t.a = u.a ORDER BY u.a DESC";
+        let out = x_run(&db2.q, text, true);
+        if matches!(&out, Err(e) if e.starts_with("panic")) {
+            rep.hit("xsel.candidate.order_by_panics_on_outer_join_rows");
+            sort_cases.push(json!({"candidate_finding": "query_router::QueryRouter::compare_values_with_nulls/not_a_total_order_sort_by_panics", "text": text,
+                "t.a": ta, "u.a": [null, 1, 2], "outcome": out.err(),
+                "why": "u.a is NULL in the rows of the NULL = NULL partners and missing in the rows without partner; (None, Some(Null)) and (Some(Null), None) both take the arm `(None | Some(Null), _)`",
+                "model": "ExecProps.order_by_comparator_is_not_an_order_on_outer_join_rows_witness", "proposed": "proposed/C15-order-by-null-total-order.diff"}));
+        }
+    }
+    if !sort_cases.is_empty() {
+        rep.observe(json!({"candidate_findings": "ORDER BY (query_router::QueryRouter::sort_rows)", "cases": sort_cases}));
+    }
+    // 3. ORDER BY a column that is not in the select list
+    let (text, text_all) = ("SELECT name FROM t ORDER BY a", "SELECT name, a FROM t ORDER BY a");
+    if let (Ok(rows), Ok(plain), Ok(all)) = (run(text, false), run("SELECT name FROM t", false), run(text_all, false)) {
+        let ids = |v: &[XB]| v.iter().map(|b| b.canon.split(' ').next().unwrap_or("").to_string()).collect::<Vec<_>>();
+        if ids(&rows) == ids(&plain) && ids(&rows) != ids(&all) {
+            rep.hit("xsel.candidate.order_by_column_outside_select_list_does_not_sort");
+            rep.observe(json!({"candidate_finding": "query_router::QueryRouter::exec_select/order_by_column_outside_the_select_list_does_not_sort", "text": text, "tables": x_rows_json(&t, &u),
+                "returned_ids": ids(&rows), "ids_when_the_column_is_selected_too": ids(&all), "model": "ExecProps.order_by_column_outside_the_select_list_does_not_sort"}));
+        }
+    }
+    // 4. aggregates / GROUP BY never reach ORDER BY / LIMIT / OFFSET
+    let (t1, t2) = ("SELECT COUNT(*) FROM t LIMIT 0", "SELECT a, COUNT(*) FROM t GROUP BY a LIMIT 1");
+    if let (Ok(r1), Ok(r2)) = (run(t1, false), run(t2, false)) {
+        if !r1.is_empty() || r2.len() > 1 {
+            rep.hit("xsel.candidate.aggregate_select_ignores_limit");
+            rep.observe(json!({"candidate_finding": "query_router::QueryRouter::try_exec_aggregates/order_by_limit_offset_not_applied", "texts": [t1, t2], "tables": x_rows_json(&t, &u),
+                "returned_rows": [r1.len(), r2.len()], "model": "ExecProps.aggregate_select_ignores_order_limit_offset"}));
+        }
+    }
+    // 5. clauses that are silently dropped: LIMIT / OFFSET that are not integer literals, the select list of a join,
+    //    a compound WHERE of a join
+    let mut dropped = Vec::new();
+    for text in ["SELECT * FROM t LIMIT 1 + 1", "SELECT * FROM t LIMIT -1", "SELECT * FROM t LIMIT 2.0", "SELECT * FROM t OFFSET 1 + 1"] {
+        if let (Ok(rows), Ok(all)) = (run(text, false), run("SELECT * FROM t", false)) {
+            if rows.len() == all.len() {
+                dropped.push(json!({"text": text, "returned_rows": rows.len(), "as_if": "the clause were absent (no error)"}));
+            }
+        }
+    }
+    if let (Ok(rows), Ok(all)) = (run("SELECT t.name FROM t JOIN u ON t.a = u.a", true), run("SELECT * FROM t JOIN u ON t.a = u.a", true)) {
+        if !rows.is_empty() && rows == all {
+            dropped.push(json!({"text": "SELECT t.name FROM t JOIN u ON t.a = u.a", "as_if": "SELECT * (the select list of a join statement is not applied)"}));
+        }
+    }
+    if let (Ok(rows), Ok(one)) = (run("SELECT * FROM t JOIN u ON t.a = u.a WHERE u.w >= 10 AND t.b >= 0", true), run("SELECT * FROM t JOIN u ON t.a = u.a WHERE u.w >= 10", true)) {
+        if rows.is_empty() && !one.is_empty() {
+            dropped.push(json!({"text": "SELECT * FROM t JOIN u ON t.a = u.a WHERE u.w >= 10 AND t.b >= 0", "returned_rows": 0,
+                "note": "evaluate_join_condition reads the operands of AND / OR as column values, so a compound WHERE of a join matches nothing"}));
+        }
+    }
+    if !dropped.is_empty() {
+        rep.hit("xsel.candidate.clauses_silently_dropped");
+        rep.observe(json!({"candidate_finding": "query_router::QueryRouter::exec_select/clause_silently_dropped", "cases": dropped, "tables": x_rows_json(&t, &u),
+            "model": "ExecProps.select_ignores_limit_and_offset_that_are_not_integer_literals"}));
+    }
+}
+
 // ------------------------------------------------------------------ main
 
 fn main() {
@@ -5477,7 +6887,25 @@ fn main() {
     ] {
         rep.expected_branches.push(k.to_string());
     }
+    for kw in ["limit", "offset"] {
+        for k in ["absent", "0", "1", "m-1", "m", "m+1", "inside", "beyond", "not_a_literal", "0.on_nonempty_result"] {
+            rep.expected_branches.push(format!("xsel.{kw}.{k}"));
+        }
+    }
+    for k in ["xsel.shape.join", "xsel.shape.single_table", "xsel.order.items.1", "xsel.order.items.2", "xsel.order.items.3", "xsel.order.desc",
+        "xsel.order.nulls_clause", "xsel.projection.columns", "xsel.where", "xsel.result_rows.0", "xsel.result_rows.1", "xsel.result_rows.2",
+        "xsel.family.aggregate", "xsel.family.group_by", "xsel.family.group_by_having", "xsel.family.delete_all", "xsel.family.delete_where",
+        "xsel.family.update", "xsel.family.insert_rows", "xsel.family.insert_positional", "xsel.family.node_list", "xsel.family.edge_list",
+        "xsel.family.find", "xsel.family.show_embeddings", "xsel.family.similar", "xsel.family.neighbors", "xsel.family.path"] {
+        rep.expected_branches.push(k.to_string());
+    }
     directed_known(&mut rep);
+    let mut xcx = XCtx { reported: Default::default(), model_on: true };
+    let t_x = Instant::now();
+    xs_directed(&mut m, &mut rep, &mut xcx, &rng);
+    xs_candidates(&mut rep);
+    xs_families(&mut m, &mut rep, &mut xcx, args.thorough);
+    if std::env::var("C15_TIMING").is_ok() { eprintln!("xs_directed {:?}", t_x.elapsed()); }
     cmt_directed(&mut m, &mut rep);
     probe_stmt_depth_limit(&mut m, &mut rep, &rng);
     nest_directed(&mut m, &mut rep, &rng);
@@ -5495,6 +6923,7 @@ fn main() {
     stream_full(&mut m, &mut rep, &rng, args.thorough);
     stream_adversarial(&mut rep, &rng, args.thorough);
     stream_exec(&mut rep, &rng, args.thorough);
+    stream_xsel(&mut m, &mut rep, &rng, args.thorough, &mut xcx);
     rep.note("expr.* / stmt.* / soup: postfix/special forms (IS NULL, IN, BETWEEN, LIKE, calls, CASE, arrays, tuples, qualified names) are opaque atoms of the Pratt model `parse`; full.*: the same forms are tokens and trees of the complete expression grammar model (Full.lean, ops `full expr|stmt`, `fprint`, `fframes`), compared with the real ExprParser and with the WHERE clause of the real statement parser; stmt-mode inputs the model answers `outside` (EXISTS, CAST, IN ( SELECT) are counted under full.stmt.outside and not compared");
     rep.note("statement-parser error behaviour (trailing tokens are not rejected by parse()) is outside the expression-core model; stmt.* streams compare accepted expressions and TooDeep answers only");
     rep.write(&args.out);
